@@ -7,13 +7,18 @@
 (*                difference to the unvaried operator scales like a_s^k with          *)
 (*                k >= n when the reference coupling is scaled down; the harness       *)
 (*                reports 100 x the base-2 exponent of the finest pair                  *)
-(*                (lambda = 1/8 -> 1/16); required >= 100 n - 35 (a violation of the     *)
-(*                working order shows as 100 (n - 1))                                    *)
+(*                (the larger of the pairs lambda = 1/16 -> 1/32 and 1/32 -> 1/64, so      *)
+(*                that an accidental cancellation between two orders at one pair does     *)
+(*                not matter); required >= 100 n - 35 (a violation of the working order    *)
+(*                shows as 100 (n - 1) at every pair).  shape: within one patch, or          *)
+(*                across a heavy-quark threshold upwards / downwards (the matching and       *)
+(*                the coupling decoupling take part)                                         *)
 EXTENDS Naturals, Integers, Sequences, FiniteSets, TLC
 Schemes == {"expo", "expanded"}
 UnitCells == [order : 1..4, scheme : Schemes, method : {"iterate-exact", "truncated", "decompose-exact", "perturbative-exact"},
               shape : {"single", "up", "down"}]
-OrderCells == {c \in [order : 1..4, scheme : Schemes, side : {"below", "above"}, pol : BOOLEAN] : c.pol => c.order <= 3}
+OrderCells == {c \in [order : 1..4, scheme : Schemes, side : {"below", "above"}, pol : BOOLEAN,
+                         shape : {"single", "up", "down"}] : c.pol => c.order <= 3}
 Required(c) == 100 * c.order - 35
 C51_Unit(same) == same
 C51_Order(c, e100) == e100 >= Required(c)
